@@ -187,7 +187,13 @@ EndLoad == /\ c.phase = "initializing" /\ c.snap # NoSnap
                   done == [Replay(snap, c.buf, 1) EXCEPT !.phase = "initialized", !.buf = <<>>, !.snap = NoSnap]
               IN c' = [ReceiveAll(done, c.late, 1) EXCEPT !.late = <<>>]
            /\ UNCHANGED <<p, log, pub, nd>>
-           /\ Log([act |-> "EndLoad"])
+           \* what the buffered reports are relative to the snapshot they are replayed on (the consumer's own epoch
+           \* at the time they arrived says nothing about that: the provider may have restarted before the load)
+           /\ Log([act |-> "EndLoad",
+                   sit |-> {"B:buffered:" \o c.buf[k].kind \o ":"
+                              \o (IF c.buf[k].ep # c.snap.ep
+                                  THEN (IF c.buf[k].ver > c.snap.ver THEN "otherepoch-higher-version" ELSE "otherepoch")
+                                  ELSE IF c.buf[k].ver <= c.snap.ver THEN "old" ELSE "news") : k \in 1..Len(c.buf)}])
 
 Next == \/ \E hs \in SUBSET Hs : CommitState(hs)
         \/ \E h \in Hs : CommitDescrUpdate(h) \/ CommitDelete(h) \/ (\E w \in BOOLEAN : CommitCreate(h, w))
@@ -211,6 +217,12 @@ Frozen == [][(c.phase = "invalid" /\ c'.phase = "invalid") => CT(c') = CT(c)]_va
 \* or later published states on top of it - never older ones
 LoadNotOlder == [][EndLoad => ((c'.phase = "initialized" /\ c'.ep = c.snap.ep) => c'.ver >= c.snap.ver
                                 /\ \A h \in Hs : (c.snap.S[h] # Absent /\ c'.S[h] # Absent) => c'.S[h] >= c.snap.S[h])]_vars
+
+\* a load ends in the epoch of the snapshot it took (reports of an earlier epoch that were buffered meanwhile - they
+\* may carry higher MdibVersions than the snapshot of the restarted provider - are not replayed on it), and what the
+\* consumer then holds was published in that epoch
+LoadEpoch == [][EndLoad => (c'.ep = c.snap.ep /\ (c'.phase = "initialized" =>
+                               \A h \in Hs : c'.S[h] # Absent => c'.S[h] \in pub[c.snap.ep][h]))]_vars
 
 \* C01 as the special case: every report delivered in emission order, exactly once, none missing, no reload
 Mirror == (c.clean /\ c.exp = Len(log) + 1 /\ p.ep = 0) => (c.ver = p.ver /\ c.S = p.S /\ c.phase = "initialized")
